@@ -27,8 +27,9 @@ fn entry_str(g: &Guarded, e: pelite::Result<Entry>) -> String {
 			CodeView::Cv70 { image, .. } => {
 				let sig: &GUID = &image.Signature;
 				let guid = unsafe { std::slice::from_raw_parts(sig as *const GUID as *const u8, 16) };
-				format!("cv70(img={},sig={},off=none,ts=none,guid={}={},age={},fmt={},name={})",
-					tref(g, image, 24), image.CvSignature, tref(g, sig, 16), hex(guid), cv.age(), hex(cv.format().as_bytes()), cs(g, cv.pdb_file_name()))
+				// (the GUID also as its `Display` text: the form a CodeView record's GUID is reported in)
+				format!("cv70(img={},sig={},off=none,ts=none,guid={}={}:{},age={},fmt={},name={})",
+					tref(g, image, 24), image.CvSignature, tref(g, sig, 16), hex(guid), hex(format!("{}", sig).as_bytes()), cv.age(), hex(cv.format().as_bytes()), cs(g, cv.pdb_file_name()))
 			},
 		},
 		Ok(Entry::Dbg(d)) => { let im = d.image(); format!("dbg(img={},dt={},len={},uni={})", tref(g, im, 12), im.DataType, im.Length, im.Unicode) },
